@@ -39,6 +39,7 @@ type Stats struct {
 	UnsatN   int
 	UnknownN int
 	Errors   int
+	Restarts int
 	Time     time.Duration
 }
 
@@ -49,6 +50,8 @@ type Solver struct {
 	cmd   *exec.Cmd
 	in    io.WriteCloser
 	out   *bufio.Reader
+	lines chan string
+	deadline time.Duration
 	ctx   *Ctx
 	defined []int // term ids / var names defined, as a stack with scope markers (-1)
 	isDef   map[int]bool
@@ -82,7 +85,44 @@ func (s *Solver) start() error {
 	}
 	s.cmd.Stderr = nil
 	s.out = bufio.NewReaderSize(o, 1<<20)
-	return s.cmd.Start()
+	if err := s.cmd.Start(); err != nil {
+		return err
+	}
+	lines := make(chan string, 1024)
+	s.lines = lines
+	rd := s.out
+	go func() {
+		defer close(lines)
+		for {
+			l, err := rd.ReadString('\n')
+			if l != "" {
+				lines <- l
+			}
+			if err != nil {
+				return
+			}
+		}
+	}()
+	return nil
+}
+
+// nextLine returns the next output line of the solver; a solver that does not answer within
+// the deadline (it ignored its own timeout) is killed and the query counts as inconclusive.
+func (s *Solver) nextLine() string {
+	d := s.deadline
+	if d <= 0 {
+		d = 5 * time.Minute
+	}
+	select {
+	case l, ok := <-s.lines:
+		if !ok {
+			panic(SolverError{"solver process ended"})
+		}
+		return l
+	case <-time.After(d):
+		s.cmd.Process.Kill()
+		panic(solverHang{})
+	}
 }
 
 func (s *Solver) Close() {
@@ -182,6 +222,10 @@ func (s *Solver) Push() {
 
 func (s *Solver) Pop() {
 	s.send("(pop 1)")
+	s.popLocal()
+}
+
+func (s *Solver) popLocal() {
 	for len(s.defined) > 0 {
 		id := s.defined[len(s.defined)-1]
 		s.defined = s.defined[:len(s.defined)-1]
@@ -207,11 +251,7 @@ func (s *Solver) Assert(t *Term) {
 }
 
 func (s *Solver) readLine() string {
-	line, err := s.out.ReadString('\n')
-	if err != nil {
-		panic(fmt.Sprintf("solver died: %v", err))
-	}
-	return strings.TrimSpace(line)
+	return strings.TrimSpace(s.nextLine())
 }
 
 // Check runs (check-sat) under the current assertions plus extra (in a temporary scope).
@@ -243,7 +283,39 @@ func (s *Solver) CheckModel(timeoutMs int, vars []*Term, extra ...*Term) (Result
 	}
 	t0 := time.Now()
 	s.Push()
-	defer s.Pop()
+	return s.checkPushed(timeoutMs, vars, extra, t0)
+}
+
+// restartReplay starts a fresh solver process and re-sends the persistent transcript.
+func (s *Solver) restartReplay() {
+	s.Close()
+	if err := s.start(); err != nil {
+		panic(SolverError{"cannot restart solver: " + err.Error()})
+	}
+	s.send("(set-option :produce-models true)")
+	for _, l := range s.Transcript {
+		s.send(l)
+	}
+	s.Stats.Restarts++
+}
+
+func (s *Solver) checkPushed(timeoutMs int, vars []*Term, extra []*Term, t0 time.Time) (res Result, m Model) {
+	defer func() {
+		if r := recover(); r != nil {
+			if _, hung := r.(solverHang); hung {
+				// the solver ignored its timeout: count the query as unknown and carry on with a fresh process
+				s.popLocal()
+				s.restartReplay()
+				s.Stats.Queries++
+				s.Stats.UnknownN++
+				s.Stats.Time += time.Since(t0)
+				res, m = Unknown, nil
+				return
+			}
+			panic(r)
+		}
+		s.Pop()
+	}()
 	for _, e := range extra {
 		s.Assert(e)
 	}
@@ -253,8 +325,9 @@ func (s *Solver) CheckModel(timeoutMs int, vars []*Term, extra ...*Term) (Result
 		}
 	}
 	s.send(fmt.Sprintf("(set-option :timeout %d)", timeoutMs))
+	s.deadline = time.Duration(timeoutMs)*time.Millisecond*2 + 10*time.Second
 	s.send("(check-sat)")
-	var res Result
+
 	line := s.readLine()
 	for line == "" {
 		line = s.readLine()
@@ -278,13 +351,15 @@ func (s *Solver) CheckModel(timeoutMs int, vars []*Term, extra ...*Term) (Result
 		s.Stats.Time += time.Since(t0)
 		panic(SolverError{line})
 	}
-	var m Model
+
 	if res == Sat && len(vars) > 0 {
 		m = s.getValues(vars)
 	}
 	s.Stats.Time += time.Since(t0)
 	return res, m
 }
+
+type solverHang struct{}
 
 type SolverError struct{ Msg string }
 
@@ -333,10 +408,7 @@ func (s *Solver) readSexp() string {
 	started := false
 	inBar := false
 	for {
-		line, err := s.out.ReadString('\n')
-		if err != nil {
-			panic(fmt.Sprintf("solver died: %v", err))
-		}
+		line := s.nextLine()
 		for _, ch := range line {
 			if ch == '|' {
 				inBar = !inBar
